@@ -87,9 +87,15 @@ def cases(tier, seed):
         if nleaves <= 1:
             out.append(("build", q, "the"))
             out.append(("build", q, "exactly"))
-    for c in (("in", A(X, "a"), GENLIT), ("contains", GENLIT, A(X, "a")), ("not", ("in", A(X, "a"), GENLIT)),
-              ("and", ("cmp", "eq", A(X, "b"), L(1)), ("in", A(X, "a"), GENLIT))):
-        out.append(("build", c01.mkq("entity", (X,), c), "an"))
+    for kind in ("gen", "iter", "map", "filter", "custom", "zip"):
+        G = ("genlit", (1, 2), kind)
+        for c in (("in", A(X, "a"), G), ("contains", G, A(X, "a")), ("not", ("in", A(X, "a"), G)),
+                  ("and", ("cmp", "eq", A(X, "b"), L(1)), ("in", A(X, "a"), G)), ("cmp", "eq", A(X, "tags"), G)):
+            out.append(("build", c01.mkq("entity", (X,), c), "an"))
+        out.append(("build", ("query", "entity", (("var", "f"),), ("cmp", "ge", ("var", "f"), L(1)),
+                              (("flat", "f", G),)), "an"))
+        out.append(("build", ("query", "setof", (X, ("var", "f")), ("cmp", "eq", ("var", "f"), A(X, "a")),
+                              (("dom", "x"), ("flat", "f", G))), "an"))
     for n in range(1, BOUNDS[tier]["rule_branches"] + 1):
         for b in c08.blocks(n, "root"):
             if n == 1 and not b[0]:
@@ -140,13 +146,44 @@ def build_genlit(q, env):
                 W.LOG.append(("pull", "literal", i))
             yield v
 
+    class Custom:
+        def __init__(self, vals):
+            self.it = gen(vals)
+
+        def __iter__(self):
+            return self
+
+        def __next__(self):
+            return next(self.it)
+
+    def one_shot(vals, kind):
+        if kind == "gen":
+            return gen(vals)
+        if kind == "iter":
+            return iter(_LoggingList(vals))
+        if kind == "map":
+            return map(lambda v: v, gen(vals))
+        if kind == "filter":
+            return filter(lambda v: True, gen(vals))
+        if kind == "zip":
+            return (v for v, _ in zip(gen(vals), range(99)))
+        return Custom(vals)
+
     def T(t):
         if isinstance(t, tuple) and t and t[0] == "genlit":
-            return ("rawlit", gen(t[1]))
+            return ("rawlit", one_shot(t[1], t[2] if len(t) > 2 else "gen"))
         if isinstance(t, tuple):
             return tuple(T(e) for e in t)
         return t
     return T(q)
+
+
+class _LoggingList(list):
+    def __iter__(self):
+        for i, v in enumerate(list.__iter__(self)):
+            if W._ARMED[0]:
+                W.LOG.append(("pull", "literal", i))
+            yield v
 
 
 def run_build(case, res):
